@@ -517,15 +517,17 @@ var defaults = map[string]map[string]JV{
 		"rules": jArr(), "fallthrough": jObj(), "offVariation": jNull(), "variations": jArr(), "clientSide": jBool(false),
 		"salt": jStr(""), "trackEvents": jBool(false), "trackEventsFallthrough": jBool(false), "debugEventsUntilDate": jNull(),
 		"version": jNum(0), "deleted": jBool(false), "excludeFromSummaries": jBool(false)},
-	"prereq":    {"key": jStr(""), "variation": jNum(0)},
-	"target":    {"contextKind": jStr(""), "values": jArr(), "variation": jNum(0)},
-	"rule":      {"id": jStr(""), "clauses": jArr(), "trackEvents": jBool(false), "variation": jNull(), "rollout": jNull()},
-	"rollout":   {"kind": jStr(""), "contextKind": jStr(""), "seed": jNull(), "bucketBy": jNull()},
-	"wv":        {"variation": jNum(0), "weight": jNum(0), "untracked": jBool(false)},
-	"clause":    {"contextKind": jStr(""), "attribute": jStr(""), "op": jStr(""), "values": jArr(), "negate": jBool(false)},
-	"segment":   {"key": jStr(""), "version": jNum(0), "generation": jNull(), "deleted": jBool(false), "included": jArr(), "excluded": jArr(), "includedContexts": jArr(), "excludedContexts": jArr(), "rules": jArr(), "salt": jStr(""), "unbounded": jBool(false), "unboundedContextKind": jStr("")},
-	"segtarget": {"contextKind": jStr(""), "values": jArr()},
-	"segrule":   {"id": jStr(""), "clauses": jArr(), "weight": jNull(), "bucketBy": jNull(), "rolloutContextKind": jStr("")},
+	"prereq":      {"key": jStr(""), "variation": jNum(0)},
+	"csa":         {"usingEnvironmentId": jBool(false), "usingMobileKey": jBool(false)},
+	"fallthrough": {"variation": jNull(), "rollout": jNull()},
+	"target":      {"contextKind": jStr(""), "values": jArr(), "variation": jNum(0)},
+	"rule":        {"id": jStr(""), "clauses": jArr(), "trackEvents": jBool(false), "variation": jNull(), "rollout": jNull()},
+	"rollout":     {"kind": jStr(""), "contextKind": jStr(""), "seed": jNull(), "bucketBy": jNull()},
+	"wv":          {"variation": jNum(0), "weight": jNum(0), "untracked": jBool(false)},
+	"clause":      {"contextKind": jStr(""), "attribute": jStr(""), "op": jStr(""), "values": jArr(), "negate": jBool(false)},
+	"segment":     {"key": jStr(""), "version": jNum(0), "generation": jNull(), "deleted": jBool(false), "included": jArr(), "excluded": jArr(), "includedContexts": jArr(), "excludedContexts": jArr(), "rules": jArr(), "salt": jStr(""), "unbounded": jBool(false), "unboundedContextKind": jStr("")},
+	"segtarget":   {"contextKind": jStr(""), "values": jArr()},
+	"segrule":     {"id": jStr(""), "clauses": jArr(), "weight": jNull(), "bucketBy": jNull(), "rolloutContextKind": jStr("")},
 }
 
 // omitVsDefault: a property removed vs. the same property with its default value.
@@ -547,19 +549,39 @@ func omitVsDefault(r *rng, kind string, d JV) (JV, JV, string, bool) {
 		names = append(names, k)
 	}
 	sort.Strings(names)
-	name := pick(r, names)
-	dv := defaults[oa[i].t][name]
-	// remove from both, then add default to b
+	// one property, or (one time in three) several at once — up to all of them, which leaves an
+	// object with no defaultable member at all (e.g. "clientSideAvailability": {})
+	chosen := []string{pick(r, names)}
+	if r.chance(1, 3) {
+		chosen = chosen[:0]
+		all := r.chance(1, 2)
+		for _, n := range names {
+			if all || r.bool() {
+				chosen = append(chosen, n)
+			}
+		}
+		if len(chosen) == 0 {
+			chosen = []string{pick(r, names)}
+		}
+	}
+	isChosen := map[string]bool{}
+	for _, n := range chosen {
+		isChosen[n] = true
+	}
+	// remove from both, then add the defaults to b
 	for _, x := range []*JV{oa[i].o, ob[i].o} {
 		kept := x.O[:0]
 		for _, kv := range x.O {
-			if kv.K != name {
+			if !isChosen[kv.K] {
 				kept = append(kept, kv)
 			}
 		}
 		x.O = kept
 	}
-	ob[i].o.O = append(ob[i].o.O, KV{name, cloneJV(dv)})
+	for _, n := range chosen {
+		ob[i].o.O = append(ob[i].o.O, KV{n, cloneJV(defaults[oa[i].t][n])})
+	}
+	name := strings.Join(chosen, "+")
 	return a, b, oa[i].t + "." + name, true
 }
 
@@ -660,8 +682,12 @@ func sameJSONBytes(a, b []byte) bool {
 	return ea == nil && eb == nil && canon(ta) == canon(tb)
 }
 
-func flagDumpJSON(f *ldmodel.FeatureFlag) string { return canon(normalizeDump(toGenericAny(dumpFlag(f, "")))) }
-func segDumpJSON(s *ldmodel.Segment) string     { return canon(normalizeDump(toGenericAny(dumpSegment(s, "")))) }
+func flagDumpJSON(f *ldmodel.FeatureFlag) string {
+	return canon(normalizeDump(toGenericAny(dumpFlag(f, ""))))
+}
+func segDumpJSON(s *ldmodel.Segment) string {
+	return canon(normalizeDump(toGenericAny(dumpSegment(s, ""))))
+}
 
 func toGenericAny(v any) any {
 	b, _ := json.Marshal(v)
